@@ -31,6 +31,7 @@ TRUSTED = [
     "to the code by differential execution on recorded scope-event traces (props/scope_trace.py)",
     "Scope/Lexical.v, the specification: written from docs/api.rst (`let`) and Python's function scoping",
     "the lexical reference interpreter props/scope_progs.py, the generator and harness; CPython as executor",
+    sc.DEVIATION_TRUST,
 ]
 
 DOC = [
@@ -52,6 +53,12 @@ DOC = [
                                               ("do", [("setx", "y", ("lit", 7)), ("ref", "r1", "z")]))),
                             ("ref", "r2", "y")]),
         ("call", ("sym", "f1"), []), ("ref", "r3", "y")])]),
+    ("witness:sibling comprehensions sharing a name (correct Python; CPython 3.12.1 mis-runs it, judged under the independent interpreter)",
+     [("setv", "x", ("lit", 1)), ("setv", "y", ("lit", 2)),
+      ("defn", "main", [], [("setv", "res1", ("lfor", "lfor", [("for", "x", 1)], ("ref", "r1", "y"))),
+                            ("setv", "res2", ("lfor", "lfor", [("for", "y", 1)], ("ref", "r2", "x"))),
+                            ("ref", "r3", "y")]),
+      ("call", ("sym", "main"), []), ("ref", "r4", "x")]),
     ("witness:class attribute hides let binding",
      [("let", [("x", ("lit", 1))],
        [("class", "C1", [("x", 2)], [("defn", "m", ["self"], [("ref", "r1", "x")])]), ("callm", "C1", "m")])]),
